@@ -1169,6 +1169,49 @@ def part_e2e(chk, tier, only=None):
     return nobs
 
 
+def below_a_cached_experiment(chk):
+    """`--this-commit` / `--at-least C` "re-runs exactly the tasks whose selected version is absent, has no commit, or
+    is a strict ancestor of C".  Chain  d -> e2 -> e  (d a command, e and e2 experiments): e has its only version at
+    commit c0, e2 at c1 = HEAD.  `cond run --this-commit //:d` must therefore re-run e (its selected version is a
+    strict ancestor of HEAD).  The planner stops at e2, whose version is current, and never examines e: the same
+    pruning as known finding F1, seen through the selection property (known finding F3)."""
+    import implrun
+    import select_util as su2
+
+    files = {"COND": 'run_experiment(name="e", run="echo e > $COND_OUT/r")\n'
+                     'run_experiment(name="e2", run="echo e2 > $COND_OUT/r", deps=[":e"])\n'
+                     'run_command(name="d", run="true", deps=[":e2"])\n',
+             ".gitignore": "cond-out\n", "cond_config.toml": ""}
+    root = implrun.make_project(files, git=True)
+    su2.git(root, "init", "-q", "-b", "main")
+    su2.git(root, "config", "user.email", "v@example.org")
+    su2.git(root, "config", "user.name", "v")
+    su2.git(root, "add", "-A")
+    su2.git(root, "commit", "-q", "-m", "c0")
+    r1 = implrun.run_cond(["run", "//:e"], root)
+    open(os.path.join(root, "note.txt"), "w").write("1\n")
+    su2.git(root, "add", "-A")
+    su2.git(root, "commit", "-q", "-m", "c1")
+    r2 = implrun.run_cond(["run", "//:e2"], root)
+    before = sorted(d for d in os.listdir(os.path.join(root, "cond-out")) if d.startswith("e.task."))
+    r3 = implrun.run_cond(["run", "--this-commit", "//:d"], root)
+    after = sorted(d for d in os.listdir(os.path.join(root, "cond-out")) if d.startswith("e.task."))
+    chk.coverage["evaluations"] += 1
+    chk.count("e2e", "below-a-cached-experiment")
+    if r1.code != 0 or r2.code != 0 or r3.code != 0 or len(before) != 1:
+        chk.violation("impl-violation", "below_a_cached_experiment: the set-up commands failed: %r %r %r %r" % (r1, r2, r3, before),
+                      {"input": {"part": "below-cached", "files": files}, "impl_observation": repr((r1, r2, r3))}, match_key={"part": "below-cached-setup"}, size=1)
+        return
+    if after == before:
+        chk.violation("impl-violation", "`cond run --this-commit //:d` (d -> e2 -> e; e recorded at c0 only, e2 at c1 = HEAD) did not re-run //:e although its selected version "
+                      "is a strict ancestor of HEAD: the planner stops at //:e2, whose version is current, and never examines //:e",
+                      {"input": {"part": "below-cached", "files": files, "commands": [["run", "//:e"], "commit", ["run", "//:e2"], ["run", "--this-commit", "//:d"]]},
+                       "impl_observation": {"versions_of_e_before": before, "after": after, "stdout": r3.out[-300:]},
+                       "oracle_verdict": "//:e should have been executed"}, match_key={"part": "below-cached"}, size=3)
+    else:
+        chk.coverage["traces_validated_against_impl"] += 1
+
+
 # ============================================================================= entry point
 def run(tier, seed, replay=None):
     chk = Check("C05", tier, seed)
@@ -1198,6 +1241,7 @@ def run(tier, seed, replay=None):
     n_flags, n_acc = part_flags(chk, impl, tier)
     n_pairs = part_gitdag(chk, tier)
     n_e2e = part_e2e(chk, tier)
+    below_a_cached_experiment(chk)
     chk.coverage["distinct_nontrivial"] = n_stub_nt + n_acc + n_e2e
     chk.coverage["exhaustive"] = True
     chk.coverage["rule"] = (
@@ -1210,6 +1254,10 @@ def run(tier, seed, replay=None):
         "non-trivial = stub cases with >= 2 versions and >= 1 commit + accepted flag cases + e2e observations; thorough widens every scope (see distribution)"
     )
     chk.assumptions.append("git: `merge-base --is-ancestor c h` = c is an ancestor of or equal to h; `rev-list --count h ^c` = commits reachable from h and not from c (tested in part b against reachability on generated histories, not proved)")
+    chk.assumptions.append("'without git' is whatever makes `git rev-parse --git-dir` fail (not a repository -- but also a repository git refuses to read, e.g. 'dubious ownership' after a chown): "
+                           "Conductor then selects the newest version; 'no commits' is whatever makes `git rev-parse HEAD` fail (also an orphan branch in a repository that has commits); "
+                           "a missing git binary without disable_git is a crash, not a mode")
+    chk.assumptions.append("the selection rule is proved and checked per task; which tasks a run EXAMINES is the planner's traversal, which stops at a cached experiment (known finding F1 / F3)")
     chk.assumptions.append("sqlite: PRIMARY KEY (task_identifier, timestamp) makes timestamps of one task pairwise distinct (hypothesis DistinctTs of C05_select_spec / C05_perm)")
     if tier == "thorough":
         chk.run_coqchk()
